@@ -685,8 +685,10 @@ class Engine:
         method = parts[-1]
         tyname = parts[-2]
         cands = []
+        named = []
         for n, fl in s.by_name.items():
             if n.endswith('>::' + method) and '<impl at' in n:
+                named.extend(f for f in fl if f.kind == 'fn')
                 for f in fl:
                     if f.params:
                         pt = norm_type(f.params[0][1]).lstrip('&')
@@ -696,6 +698,8 @@ class Engine:
                         cands.append(f)
         if len(cands) == 1:
             return cands[0]
+        if not cands and len(named) == 1:
+            return named[0]       # an associated function without a receiver (Type::helper(..)): the only impl method of that name
         return None
 
     def find_native(s, name, txt):
